@@ -712,7 +712,69 @@ def _low_zero_bits(F, fn, e, depth=0):
     return 0
 
 
-@rule('WINDOW-ALIGN', ['C03', 'C01'], floor=2)
+def _lower_bound(F, fn, e, depth=0):
+    """A sound lower bound of an unsigned expression (0 when nothing is known)."""
+    if depth > 8:
+        return 0
+    k = e[0]
+    if k == 'const':
+        return e[2] if isinstance(e[2], int) and not isinstance(e[2], bool) and e[2] >= 0 else 0
+    if k == 'cast':
+        return _lower_bound(F, fn, e[2], depth + 1)
+    if k in ('trybranch', 'downcast'):
+        return _lower_bound(F, fn, e[1], depth + 1)
+    if k == 'field' and e[2] == '0' and e[1][0] in ('bin', 'downcast'):
+        return _lower_bound(F, fn, e[1], depth + 1)
+    if k == 'bin':
+        op = e[1].replace('WithOverflow', '')
+        if op == 'Add':
+            return _lower_bound(F, fn, e[2], depth + 1) + _lower_bound(F, fn, e[3], depth + 1)
+        if op == 'BitAnd':
+            # (y + m) & !m rounds y up to a multiple of m + 1: at least y
+            for a, b in ((e[2], e[3]), (e[3], e[2])):
+                m = None
+                if b[0] == 'un' and b[1] == 'Not' and b[2][0] == 'const' and isinstance(b[2][2], int):
+                    m = b[2][2]
+                elif b[0] == 'const' and isinstance(b[2], int):
+                    inv = (~b[2]) & 0xFFFFFFFFFFFFFFFF
+                    low = inv & 0xFFFF
+                    if low and (low & (low + 1)) == 0 and (b[2] & low) == 0:
+                        m = low
+                x = a
+                while x[0] == 'cast' or (x[0] == 'field' and x[2] == '0' and x[1][0] == 'bin'):
+                    x = x[2] if x[0] == 'cast' else x[1]
+                if m is not None and x[0] == 'bin' and x[1].startswith('Add'):
+                    for y, c in ((x[2], x[3]), (x[3], x[2])):
+                        if c[0] == 'const' and c[2] == m:
+                            return _lower_bound(F, fn, y, depth + 1)
+            return 0
+        return 0
+    if k == 'call':
+        ln = e[1].split('::')[-1]
+        if ln == 'max' and len(e[2]) == 2:
+            return max(_lower_bound(F, fn, a, depth + 1) for a in e[2])
+        if ln in ('unwrap', 'expect', 'from', 'into', 'try_from', 'try_into') and e[2]:
+            return _lower_bound(F, fn, e[2][0], depth + 1)
+        node = e[3] if len(e) > 3 else None
+        c = callee_of(node) if node else None
+        if c and c.get('local'):
+            g = F.by_path.get(c['path'])
+            if g is not None:
+                pg = Prov(g)
+                vals = []
+                for bi, x in pg.def_exprs(0):
+                    if x[0] == 'agg' and str(x[1]).startswith('adt:'):
+                        if str(x[1]).endswith(('::Err', '::None')) or not x[2]:
+                            continue
+                        x = x[2][0]
+                    if x[0] == 'call' and x[1].endswith('from_residual'):
+                        continue
+                    vals.append(_lower_bound(F, g, x, depth + 1))
+                return min(vals) if vals else 0
+    return 0
+
+
+@rule('WINDOW-ALIGN', ['C03', 'C01', 'C06'], floor=4)
 def window_align(ctx):
     """The decoder takes its position bits (pos_state, literal position) from the position inside the cyclic
     window, so the window length must be a multiple of 2^4 (pb, lp <= 4): otherwise the bits go out of phase
@@ -772,6 +834,14 @@ def window_align(ctx):
             n += 1
             z = _low_zero_bits(F, f, e)
             key = '%s:window-multiple-of-16' % f.key
+            # the window is never empty: the decoder's reset writes buf[len - 1]
+            lo = _lower_bound(F, f, e)
+            key2 = '%s:window-not-empty' % f.key
+            if lo >= 1:
+                ctx.ok(key2, f.loc(bi), 'window size is at least %d' % lo)
+            else:
+                ctx.violation(key2, f.loc(bi), 'the decoder window can be sized 0 (%s has no positive lower bound): the window reset writes '
+                              'buf[len - 1] and panics for a caller-supplied dictionary size of 0' % expr_str(e)[:60])
             if z >= 4:
                 ctx.ok(key, f.loc(bi), 'window size %s has %d low zero bits' % (expr_str(e)[:70], min(z, 64)))
             else:
